@@ -731,7 +731,7 @@ func openStream(f h2.StreamProcessorFactory, cur **streamRun, c Case) *streamRun
 func (s *streamRun) stepC() {
 	if s.errC == nil {
 		o := s.opsC[s.atC]
-		if s.errC = apply(s.hc, o); s.errC != nil {
+		if s.errC = guarded(0, &s.opsC[s.atC], s.atC, func() error { return apply(s.hc, o) }); s.errC != nil {
 			s.errC = fmt.Errorf("op %d %c(%d bytes,end=%v): %w", s.atC, o.kind, len(o.data), o.end, s.errC)
 		}
 	}
@@ -741,7 +741,7 @@ func (s *streamRun) stepC() {
 func (s *streamRun) stepS() {
 	if s.errS == nil {
 		o := s.opsS[s.atS]
-		if s.errS = apply(s.hs, o); s.errS != nil {
+		if s.errS = guarded(1, &s.opsS[s.atS], s.atS, func() error { return apply(s.hs, o) }); s.errS != nil {
 			s.errS = fmt.Errorf("op %d %c(%d bytes,end=%v): %w", s.atS, o.kind, len(o.data), o.end, s.errS)
 		}
 	}
@@ -793,6 +793,7 @@ func (s *streamRun) verdict() kit.Verdict {
 }
 
 func runCase(c Case) kit.Verdict {
+	watchBegin("reframe", c)
 	var cur *streamRun
 	s := openStream(newFactory(&cur), &cur, c)
 	if s.bad != nil {
